@@ -32,7 +32,9 @@ CLAIM = dict(
     "clip/astype(int) warp: rotcorr_quarter_turn_2d/3d), destination metadata. Voxel-mode quarter turn: the exact model IS rot90 "
     "(warp_quarter_turn_voxel_exact) and every pre-image lies ON a rounding breakpoint where an arbitrarily small perturbation moves "
     "the source voxel (quarter_turn_voxel_on_breakpoint), whereas in voxel-centre mode all pre-images are half-integers and any "
-    "perturbation < 1/2 is harmless (quarter_turn_center_robust); general guard floor_stable_of_fracDist. GeneralizedPerspectiveTransformation.inverse_array (perspective division, bulge and "
+    "perturbation < 1/2 is harmless (quarter_turn_center_robust); general guard floor_stable_of_fracDist. Maps fitted in physical coordinates between two different systems (AffineCorrection / "
+    "CoordinateTransformation with isometry): isometry_pairs_are_translation, src_/warp_shift_two_systems (zero-filled shift onto "
+    "the destination canvas), isometry_wrong_system_differs. GeneralizedPerspectiveTransformation.inverse_array (perspective division, bulge and "
     "stretch polynomials as coded) over any field: gp_identity, gp_translation, gp_affine_reduction, gp_affine_eq_affine_inverse "
     "(= AffineTransformation.inverse_array), gp_affine_invertible (explicit inverse for det A != 0), gp_perspective_division, "
     "gp_bulge_fixes_centre_and_boundary, gp_no_bulge_no_stretch; tied on dyadic parameters (exact without perspective division, "
@@ -615,6 +617,43 @@ def check_warp_case(ctx, d, case):
         if out.shape != exp.shape or not np.array_equal(out, exp):
             bad.append(("C09:warp(quarter-turn,mode=voxel,exact-matrix):not-rot90",
                         f"Voxel-typed quarter turn with exact integer matrices of shape {shape} is not np.rot90"))
+    elif kind == "coordtransf-fit":
+        # CoordinateTransformation / AffineCorrection as the user gets them: fitted from reference point pairs p -> p + k,
+        # in voxel-centre mode or (isometry) in physical coordinates, between two systems of different shape and origin
+        k, iso = case["k"], case["isometry"]
+        dshape, dorigin = tuple(case["dshape"]), case.get("dorigin")
+        srcimg = call(mk_image, d, shape, h, origin, arr=arr.astype(float), name="c09-fit", scalar=not trail)
+        dst = call(mk_image, d, dshape, h, dorigin)
+        if isinstance(srcimg, Raised) or isinstance(dst, Raised):
+            return [("C09:Image:raises", f"{srcimg} {dst}")]
+        pts = np.array(case["pts"], dtype=float)
+
+        def build():
+            return d.CoordinateTransformation(srcimg.coordinatesystem, dst.coordinatesystem, d.make_voxel_center(pts),
+                                              d.make_voxel_center(pts + np.array(k, float)),
+                                              fit_options={"tol": 1e-8, "maxiter": 10000, "isometry": iso})
+
+        ct = call(build)
+        if isinstance(ct, Raised):
+            return [(f"C09:CoordinateTransformation(isometry={iso}):raises", f"{ct}")]
+        T = ct.affine_correction.transformation
+        case["_fitted"] = [float(x) for x in np.asarray(T.translation, float)] + [float(T.scaling)]
+        case["_cs"] = (cs_line(srcimg), cs_line(dst))
+        res = call(ct, srcimg)
+        if isinstance(res, Raised):
+            return [(f"C09:CoordinateTransformation(isometry={iso}).__call__:raises", f"{res}")]
+        exp = np.zeros(dshape + trail)
+        for i in range(dshape[0]):
+            for j in range(dshape[1]):
+                si, sj = i - k[0], j - k[1]
+                if 0 <= si < shape[0] and 0 <= sj < shape[1]:
+                    exp[i, j] = arr[si, sj]
+        if res.img.shape != exp.shape or not np.array_equal(res.img, exp):
+            bad.append((f"C09:CoordinateTransformation(fitted,isometry={iso}):wrong-array",
+                        f"reference pairs p -> p + {k} voxels from {shape} onto {dshape} (origins {list(srcimg.origin)} / {list(dst.origin)}): "
+                        f"result is not the zero-filled shift; fitted translation {case['_fitted'][:2]}"))
+        if not (np.allclose(res.dimensions, dst.dimensions, rtol=0, atol=0) and np.array_equal(np.asarray(res.origin), np.asarray(dst.origin))):
+            bad.append((f"C09:CoordinateTransformation(fitted,isometry={iso}):metadata-not-destination", "result not labelled with the destination system"))
     elif kind == "coordtransf":
         k = case["k"]
         dshape, dh, dorigin = tuple(case["dshape"]), [Fr(x) for x in case["dh"]], case.get("dorigin")
@@ -845,6 +884,28 @@ def oracle(ctx, d):
                     k=[0, 0] if i % 5 == 0 else [rng.randint(-n - 1, n + 1) for n in shape])
         ctx.count(("gp-warp", case["mode"], tuple(shape), tuple(case["k"])), nontrivial=int(np.prod(shape)) > 1)
         report(ctx, check_gp_case(ctx, d, case), case)
+    iso_lines, iso_vals = [], []
+    for i in range(ctx.pick(8, 60)):
+        shape = [rng.randint(3, 6), rng.randint(3, 6)]
+        dshape = [shape[0] + rng.randint(0, 3), shape[1] + rng.randint(0, 3)]
+        if i % 4 == 0:
+            dshape = list(shape)
+        hh = [str(Fr(1, rng.choice([1, 2, 4]))), str(Fr(1, rng.choice([1, 2, 4])))]
+        n = rng.randint(3, 5)
+        pts = [[0, 0], [shape[0] - 1, 0], [0, shape[1] - 1]] + [[rng.randrange(shape[0]), rng.randrange(shape[1])] for _ in range(n - 3)]
+        case = dict(kind="coordtransf-fit", dim=2, mode="coord", isometry=bool(i % 2 == 0), shape=shape, h=hh, dshape=dshape,
+                    k=[rng.randint(-1, 2), rng.randint(-1, 2)], pts=pts,
+                    origin=[str(dy(rng, -4, 4, 2)) for _ in range(2)] if i % 3 == 0 else None,
+                    dorigin=[str(dy(rng, -4, 4, 2)) for _ in range(2)] if i % 3 == 1 else None, trail=rng.choice([[], [3]]))
+        ctx.count(("coordtransf-fit", case["isometry"], tuple(shape), tuple(dshape), tuple(case["k"])))
+        bad = check_warp_case(ctx, d, case)
+        fitted, csl = case.pop("_fitted", None), case.pop("_cs", None)
+        report(ctx, bad, case)
+        if fitted is not None and case["isometry"]:
+            iso_lines.append(f"isoshift {csl[0]} {csl[1]} {case['k'][0]} {case['k'][1]}")
+            iso_vals.append(fitted[:2])
+    # fitted translation of the isometry branch vs the model's translation between the two systems (Powell: 1e-5)
+    correspond_tol(ctx, "AffineCorrection(isometry) fitted translation between two systems vs isoShiftVec (1e-5)", iso_lines, iso_vals, tol=1e-5)
     for i in range(ctx.pick(3, 12)):
         shape = [rng.randint(2, 6), rng.randint(2, 6)]
         dshape = [rng.randint(2, 8), rng.randint(2, 8)]
